@@ -2,6 +2,8 @@
 //! usage: verif-engine <property> <quick|thorough>   |   verif-engine --replay <file>
 mod complex;
 mod geom;
+mod nf;
+mod variants;
 mod oracle;
 mod props;
 mod run;
@@ -16,6 +18,12 @@ fn main() {
     }
     if args[1] == "--scenario" && args.len() >= 6 {
         std::process::exit(props::c03::scenario_child(&args[2], args[3].parse().unwrap(), &args[4], &args[5]));
+    }
+    unsafe {
+        // allocation-heavy enumeration on 16 threads: keep freed memory in the arenas (less page-fault churn)
+        libc::mallopt(libc::M_TRIM_THRESHOLD, 1 << 30);
+        libc::mallopt(libc::M_TOP_PAD, 256 << 20);
+        libc::mallopt(libc::M_MMAP_THRESHOLD, 1 << 30);
     }
     let threads = std::env::var("VERIF_THREADS").ok().and_then(|s| s.parse().ok()).unwrap_or(16);
     rayon::ThreadPoolBuilder::new().num_threads(threads).stack_size(16 << 20).build_global().unwrap();
@@ -47,6 +55,11 @@ fn main() {
     let code = match prop {
         "C01" | "C02" | "C04" | "C05" => props::base::run(prop, tier),
         "C03" => props::c03::run(tier),
+        "C06" => props::c06::run(tier),
+        "C07" => props::c07::run(tier),
+        "C08" => props::c08::run(tier),
+        "C09" => props::c09::run(tier),
+        "C10" => props::c10::run(tier),
         _ => {
             eprintln!("unknown property {prop}");
             2
@@ -59,6 +72,11 @@ pub fn replay_case(case: &serde_json::Value, verbose: bool) -> Vec<String> {
     match case["prop"].as_str().unwrap_or("") {
         "C01" | "C02" | "C04" | "C05" => props::base::replay(case, verbose),
         "C03" => props::c03::replay(case, verbose),
+        "C06" => props::c06::replay(case, verbose),
+        "C07" => props::c07::replay(case, verbose),
+        "C08" => props::c08::replay(case, verbose),
+        "C09" => props::c09::replay(case, verbose),
+        "C10" => props::c10::replay(case, verbose),
         p => panic!("no replay for property {p}"),
     }
 }
